@@ -92,3 +92,40 @@ theorem C14_merge_keeps_count (h : PHeap) (hwf : P33.WF h) (m : Nat) (hm : m ∈
     ∀ j ∈ (h.mergeWithParent m).alive,
       (h.mergeWithParent m).specCount (h.mergeWithParent m).size j = h.specCount h.size j :=
   P33.merge_keeps_count h hwf m hm hp
+
+/-! ## the object heap and the tree model are the same forest -/
+
+/-- **C14 / C07 (the heap-level prune refines the tree-level prune).** `P35.absF h h.size (P35.rootsOf h)` reads the
+live part of the object heap as a forest of the tree model (`ADModel/Basic.lean`). Pruning on the heap — the merges
+assignment by assignment (`_merge_with_parent`), then the cache reset and trunk seeding — commutes with that reading:
+the result is the forest obtained by applying the tree-level `mergeInto` at the parent of each merged structure. So the
+theorems about caches (this file) and the theorems about the pruned forest (C07) speak about the same objects. -/
+theorem C14_heap_prune_refines {h : Heap} {ms : List Nat} (w : P17.WF h) (hl : P17.Legal h ms) :
+    P35.absF (h.prune ms) (h.prune ms).size (P35.rootsOf (h.prune ms)) =
+      ms.foldl (fun f m => P35.mergeIdL m f) (P35.absF h h.size (P35.rootsOf h)) := P35.prune_refines w hl
+
+/-- one step of the caller of `_to_prune` (two-sibling rule included) is the tree model's `pruneAt` -/
+theorem C14_heap_pruneAt_refines {h : Heap} (w : P17.WF h) {k p : Nat} {po : Obj} (hk : k ∈ h.alive)
+    (hp : (h.get k).bind (·.parent) = some p) (hgp : h.get p = some po) :
+    P35.absT ((if po.kids.length = 2 then po.kids else [k]).foldl Heap.mergeWithParent h) h.size p =
+      pruneAt (P35.absT h h.size p) (P35.absT h h.size k) := P35.pruneAt_refines w hk hp hgp
+
+/-- **C14 (heap specification = tree observables).** What the cache theorems compare answers with (`specLevel`,
+`specRoot`, `specDesc`, computed from the live links) is what the tree model reports for the same structure (`rows`:
+level, ancestor, descendants — the latter up to order: the code lists descendants level by level, the tree model in
+prefix order, `P35` has the witness that they differ as lists). -/
+theorem C14_heap_spec_is_tree_obs {h : Heap} (w : P17.WF h) (i : Nat) (hi : i ∈ h.alive) :
+    (∃ row ∈ rows (P35.absF h h.size (P35.rootsOf h)), row.id = i) ∧
+    ∀ row ∈ rows (P35.absF h h.size (P35.rootsOf h)), row.id = i →
+      h.specLevel h.size i = some row.level ∧ h.specRoot h.size i = some row.ancestor ∧
+        (h.specDesc h.size [i]).Perm row.desc ∧ row.desc = P35.descIds (P35.absT h h.size i) :=
+  P35.spec_eq_rows w i hi
+
+/-- **C14 (compute hands over sound caches).** After any compute-time history (see `C04_ancestor_is_root`) and the
+trunk seeding of `_make_trunk`, the heap is well formed and its caches are sound — the hypotheses of
+`C14_history_sound` hold for every freshly computed dendrogram. -/
+theorem C14_compute_establishes_sound (ops : List P37.GOp) (hl : P37.LegalGrow {} ops) :
+    P17.WF (ops.foldl P37.stepG {}).finishPruneOld ∧ P17.Sound (ops.foldl P37.stepG {}).finishPruneOld :=
+  P37.grow_seed_sound ops hl
+
+example : P17.WF P35.h1 := P35.h1_wf
